@@ -127,6 +127,7 @@ class Ctx:
         self.history_log = []  # (outdir, snapshot at the time) for the re-check at the end
         self.discard = False
         self.nested = False
+        self.current_dim = None
 
     # -- staging ---------------------------------------------------------------
     def stage(self, key):
@@ -280,10 +281,11 @@ class Ctx:
         if any(v["oracle"] == oracle for v in self.violations):
             return
         case = copy.deepcopy(self.case)
-        case["dims"] = [dim]
+        # (the replay runs the dimension that was running, under its method name)
+        case["dims"] = [self.current_dim or dim]
         self.violations.append({
             "oracle": oracle, "site": site, "detail": detail[:1800],
-            "replay": {"property": ID, "case": case, "expect": {"oracle": oracle}},
+            "replay": {"property": ID, "case": case, "case_full": copy.deepcopy(self.case), "expect": {"oracle": oracle}},
         })
 
     def classify(self, dim, key, ref):
@@ -788,7 +790,9 @@ class Ctx:
             for dim in self.case["dims"]:
                 if self.violations:
                     break
+                self.current_dim = dim
                 getattr(self, "dim_" + dim)(ref)
+            self.current_dim = None
             # the reference run's own files must not have been touched by anything later
             now = Outcome(ref.code, self.collect(ref.outd, ref.ind))
             if not self.violations:
@@ -851,6 +855,12 @@ def run_one(run_seed, i, tier):
 
 def replay(obj):
     return execute_case(obj["case"], 0xC17, "thorough", tag="r")
+
+
+def full_replay(rep):
+    if "case_full" not in rep:
+        return None
+    return {"property": ID, "case": rep["case_full"], "expect": rep.get("expect")}
 
 
 def shrink_candidates(obj):
